@@ -27,6 +27,8 @@ func init() {
 	conc(&quick, 2, 1, 1, 1, 1)
 	conc(&quick, 3, 0, 0, 1, 1)
 	conc(&quick, 3, 1, 0, 0, 1)
+	conc(&quick, 2, 0, 1, 2, 0) // a handler behind the idle handler fails while handling inactive
+	conc(&quick, 2, 1, 0, 2, 0)
 	conc(&thorough, 3, 0, 1, 1, 1)
 	conc(&thorough, 3, 1, 1, 1, 0)
 	conc(&thorough, 2, 0, 2, 0, 0)
